@@ -5,7 +5,7 @@ Proof side: Props/C01.lean (the exception-to-tag mapping of Checker.check and th
 NoCrash / closed-error-set theorems of the component models).  Test side (what no model can exhibit: CPython's regex
 engine time, third-party code, the OS): a crash- and hang-seeking end-to-end search on the REAL code, in-process
 (`Checker.check`) and through the command line (`rc`, stderr, line grammar), plus a size-doubling timing stream."""
-import collections, json, multiprocessing, os, re, shutil, sys, tempfile, time, traceback
+import collections, json, multiprocessing, os, re, shutil, sys, tempfile, time, traceback, unicodedata
 sys.path.insert(0, os.path.join(os.path.dirname(os.path.abspath(__file__)), '..'))
 import common
 import e2e_common as E
@@ -125,11 +125,20 @@ def run_cases(cases, workers, on_result):
             pool.terminate()
             pool.join()
 
+def lang_ok(s):
+    """would `-l s` be accepted?  (decided by the harness on the real ling module, only to know what to expect of the run)"""
+    try:
+        from lib import ling
+        ling.parse_language(s).fix_codes()
+        return True
+    except Exception:
+        return False
+
 def make_opts(rng):
     o = {}
     r = rng.random()
     if r < 0.2:
-        o['language'] = rng.choice(['pl', 'pl_PL', 'de', 'sr@latin', 'pt_BR', 'zh_TW', 'ja', 'en_GB.UTF-8', 'ca@valencia', 'pol'])
+        o['language'] = rng.choice(['pl', 'pl_PL', 'de', 'sr@latin', 'pt_BR', 'zh_TW', 'ja', 'en_GB.UTF-8', 'ca@valencia', 'pol', 'pl', 'de', 'zz', 'xx_YY!', 'POLISH', 'tlh'])
     if rng.random() < 0.12:
         o['file_type'] = rng.choice(['po', 'pot', 'mo', 'gmo'])
     r = rng.random()
@@ -244,14 +253,47 @@ def main():
     # ---------------------------------------------------------------- 2. the command line: rc, stderr, line grammar, options
     n_cli = (600 if chk.thorough else 90) * mult
     with E.Workdir() as wd:
-        runs = []
-        special = [('nonexistent.po', None), ('dir.po', 'DIR'), ('empty.po', b''), ('empty.mo', b''), ('empty.pot', b''), ('noext', b'msgid ""\nmsgstr ""\n'), ('x.txt', b'hello')]
-        for name, data in special:
-            if data == 'DIR':
-                os.makedirs(os.path.join(wd.path, name))
-            elif data is not None:
-                wd.write(name, data)
-            runs.append(([name], name))
+        runs = []          # (args, description, expectation[, extra env]); expectation: 'ok' | 'usage' | ('ok', <tag that must appear>)
+        good_po = HG._wrap(HG._msg('c-format', '%d file', '%d plik'))
+        good_mo = HG._mo_n(2)
+        nonascii_po = HG._wrap(HG._msg('', 'a', 'za\u017c\u00f3\u0142\u0107 \U0001f600\x07')).replace(b'Language: pl', b'Language: p\xc5\x82')
+        wd.write('x.po', good_po); wd.write('x.pot', good_po); wd.write('x.mo', good_mo); wd.write('x.gmo', good_mo)
+        wd.write('.po', good_po); wd.write('..po', good_po); wd.write('sub/.po', good_po); wd.write('nonascii.po', nonascii_po)
+        wd.write('empty.po', b''); wd.write('empty.mo', b''); wd.write('empty.pot', b''); wd.write('noext', b'msgid ""\nmsgstr ""\n'); wd.write('x.txt', b'hello')
+        wd.write('corrupt.deb', b'not an archive'); wd.write('bad.dsc', b'x'); wd.write('file.po', good_po)
+        os.makedirs(os.path.join(wd.path, 'dir.po'))
+        os.symlink('nowhere.po', os.path.join(wd.path, 'dangling.po'))
+        os.symlink('loop.po', os.path.join(wd.path, 'loop.po'))
+        wd.write('noperm.po', good_po); os.chmod(os.path.join(wd.path, 'noperm.po'), 0)
+        os.makedirs(os.path.join(wd.path, 'noperm.d')); wd.write('noperm.d/x.po', good_po); os.chmod(os.path.join(wd.path, 'noperm.d'), 0)
+        weird = os.fsdecode(b'pl\xff.po')
+        with open(os.path.join(os.fsencode(wd.path), os.fsencode(weird)), 'wb') as f:
+            f.write(good_po)
+        root = (os.geteuid() == 0)
+        runs += [
+            (['nonexistent.po'], 'missing file', ('ok', 'os-error')), (['dir.po'], 'directory', 'ok'), (['dangling.po'], 'dangling symlink', ('ok', 'os-error')),
+            (['loop.po'], 'symlink loop', ('ok', 'os-error')), (['file.po/x.po'], 'path through a regular file', ('ok', 'os-error')),
+            (['noperm.po'], 'mode 000 file', 'ok' if root else ('ok', 'os-error')), (['noperm.d/x.po'], 'file in a mode 000 directory', 'ok' if root else ('ok', 'os-error')),
+            (['a' * 300 + '.po'], 'name too long', ('ok', 'os-error')), ([weird], 'undecodable file name', 'ok'),
+            (['empty.po'], 'empty', 'ok'), (['empty.mo'], 'empty', ('ok', 'invalid-mo-file')), (['empty.pot'], 'empty', 'ok'),
+            (['noext'], 'no extension', ('ok', 'unknown-file-type')), (['x.txt'], 'other extension', ('ok', 'unknown-file-type')),
+            (['-l', 'pl', 'x.po'], '-l', 'ok'), (['-l', 'pl_PL.UTF-8@euro', 'x.po'], '-l', 'ok'), (['--language', 'sr@latin', 'x.mo'], '-l', 'ok'), (['-l', 'de', 'x.po'], '-l other', ('ok', 'language-disparity')),
+            (['-l', 'xx_INVALID!', 'x.po'], '-l invalid', 'usage'), (['-l', '', 'x.po'], '-l empty', 'usage'), (['-l', 'pl\n', 'x.po'], '-l with newline', 'usage'),
+            (['-l', 'zz', 'x.po'], '-l unknown code', 'usage'), (['-l', '\udcff', 'x.po'], '-l undecodable', 'usage'),
+            (['--file-type', 'po', '.po'], '--file-type po on a base name without extension', 'ok'), (['--file-type', 'po', '..po'], '--file-type', 'ok'),
+            (['--file-type', 'po', 'sub/.po'], '--file-type', 'ok'), (['--file-type', 'pot', '.po'], '--file-type', 'ok'), (['--file-type', 'mo', '.po'], '--file-type', ('ok', 'invalid-mo-file')),
+            (['--file-type', 'mo', 'x.po'], '--file-type mo on a PO file', ('ok', 'invalid-mo-file')), (['--file-type', 'po', 'x.mo'], '--file-type po on an MO file', 'ok'),
+            (['--file-type', 'gmo', 'x.mo'], '--file-type', 'ok'), (['--file-type', 'pot', 'x.po'], '--file-type', 'ok'), (['--file-type', 'xyz', 'x.po'], '--file-type unknown', ('ok', 'unknown-file-type')),
+            (['--file-type', '', 'x.po'], '--file-type empty', ('ok', 'unknown-file-type')), (['--file-type', 'po', 'x.txt'], '--file-type', 'ok'), (['--file-type', 'po', 'dir.po'], '--file-type on a directory', 'ok'), (['--file-type', 'mo', 'dir.po'], '--file-type mo on a directory', ('ok', 'os-error')),
+            (['-j', '0', 'x.po'], '-j 0', 'usage'), (['-j', '-1', 'x.po'], '-j -1', 'usage'), (['-j', 'x', 'x.po'], '-j x', 'usage'), (['-j', 'auto', 'x.po', 'x.mo'], '-j auto', 'ok'),
+            (['-j', '2', 'x.po'], '-j 2, one file', 'ok'), (['-j', '4', 'nonexistent.po', 'x.po', 'dir.po', 'x.mo', 'x.txt'], '-j 4 with unreadable files', ('ok', 'os-error')),
+            (['-j', '2', '-l', 'pl', '--file-type', 'po', 'x.po', '.po', 'x.mo'], '-j 2 -l --file-type', 'ok'), (['--parallel', '2', 'x.po', 'x.mo'], '--parallel', 'ok'),
+            (['--unpack-deb', 'corrupt.deb'], '--unpack-deb on a non-archive', ('ok', 'unknown-file-type')), (['--unpack-deb', 'bad.dsc'], '--unpack-deb on a non-dsc', ('ok', 'unknown-file-type')),
+            (['--unpack-deb', 'missing.deb'], '--unpack-deb on a missing file', ('ok', 'os-error')), (['--unpack-deb', 'x.po', 'corrupt.deb'], '--unpack-deb', 'ok'), (['--unpack-deb', '-j', '2', 'corrupt.deb', 'x.po'], '--unpack-deb -j', 'ok'),
+            (['nonascii.po'], 'non-ASCII tags, ASCII terminal', 'ok', {'LC_ALL': 'C', 'LANG': 'C'}), (['nonascii.po'], 'non-ASCII tags, PYTHONIOENCODING=ascii:strict', 'ok', {'PYTHONIOENCODING': 'ascii:strict'}),
+            (['nonascii.po', weird], 'non-ASCII tags, latin-1 terminal', 'ok', {'PYTHONIOENCODING': 'iso-8859-1'}), (['-j', '2', 'nonascii.po', weird], 'non-ASCII tags, -j, ASCII terminal', 'ok', {'LC_ALL': 'C', 'PYTHONIOENCODING': 'ascii'}),
+        ]
+        n_special = len(runs)
         sample = rng.sample(cases, min(n_cli, len(cases)))
         for k, (idx, data, ext, opts) in enumerate(sample):
             sub = opts.get('subdir', 'd%d' % (k % 5))
@@ -262,28 +304,42 @@ def main():
                 args += ['-l', opts['language']]
             if opts.get('file_type'):
                 args += ['--file-type', opts['file_type']]
-            runs.append((args + [name], descr.get(idx)))
+            runs.append((args + [name], descr.get(idx), 'usage' if args[:1] == ['-l'] and not lang_ok(args[1]) else 'ok'))
         # multi-file and -j
-        names = [r[0][-1] for r in runs[len(special):]]
+        names = [r[0][-1] for r in runs[n_special:]]
         for j in (['1', '2', '4', 'auto'] if chk.thorough else ['2', '3']):
             fl = rng.sample(names, min(len(names), 6))
-            runs.append((['-j', j] + fl, '-j ' + j))
-        outs = E.parallel(lambda r: E.run_cli(r[0], wd.path, timeout=HANG_S * 2), runs, workers=4)
+            runs.append((['-j', j] + fl, '-j ' + j, 'ok'))
+        outs = E.parallel(lambda r: E.run_cli(r[0], wd.path, timeout=HANG_S * 2, extra_env=(r[3] if len(r) > 3 else None)), runs, workers=4)
+        for d in ('noperm.d',):
+            os.chmod(os.path.join(wd.path, d), 0o700)
         chk.evaluations += len(runs)
         cli_stats = collections.Counter()
-        for (args, what), r in zip(runs, outs):
+        cli_kinds = collections.Counter()
+        for run, r in zip(runs, outs):
+            args, what, expect = run[0], run[1], run[2]
+            must = None
+            if isinstance(expect, tuple):
+                expect, must = expect
             bad = None
             if r['timeout']:
                 bad = 'hang'
+            elif expect == 'usage':
+                # a rejected option is not a "valid combination": argparse's usage error, status 2, nothing on stdout, no traceback
+                if r['rc'] != 2 or 'Traceback' in r['stderr'] or not r['stderr'].startswith('usage:') or r['stdout']:
+                    bad = 'rejected-option-not-a-usage-error'
             elif r['rc'] != 0:
                 bad = 'exit-status-%s' % r['rc']
             elif r['stderr']:
                 bad = 'stderr-not-empty'
             else:
-                for line in r['stdout'].splitlines():
-                    if not LINE_RE.match(line):
+                for line in r['stdout'].split('\n')[:-1] if r['stdout'].endswith('\n') else r['stdout'].split('\n'):
+                    if not LINE_RE.match(line) or any(unicodedata.category(c) in ('Cc', 'Cs') for c in line):
                         bad = 'line-grammar'
                         break
+                if bad is None and must is not None and (' ' + must) not in r['stdout']:
+                    bad = 'problem-not-reported-as-' + must
+            cli_kinds[what.split(',')[0][:40] if len(run) > 2 and runs.index(run) < n_special else 'generated-file'] += 1
             cli_stats[bad or 'ok'] += 1
             if bad:
                 m = re.search(r'^(\w+(?:\.\w+)*(?:Error|Exception|Interrupt|Exit)\w*)', r['stderr'].strip().splitlines()[-1] if r['stderr'].strip() else '', re.M)
@@ -305,7 +361,7 @@ def main():
                         files[a] = repr(b) if len(b) < 4000 else b.hex()
                 chk.violation(f'command line run: {bad} ({what})', {'kind': bad, 'args': args, 'files': files, 'rc': r['rc'], 'stderr': r['stderr'][-1500:], 'stdout': r['stdout'][:500],
                                                                      'expected': 'exit status 0, empty stderr, only tag lines'}, key=key)
-        chk.coverage['command_line'] = {'runs': len(runs), 'outcomes': dict(cli_stats)}
+        chk.coverage['command_line'] = {'runs': len(runs), 'outcomes': dict(cli_stats), 'special_cases': n_special, 'by_case': dict(cli_kinds)}
 
     # ---------------------------------------------------------------- 3. size doubling (time bounded by a low-degree polynomial)
     fam_stats = {}
